@@ -3,6 +3,20 @@ import json, os
 VERIF = os.path.dirname(os.path.dirname(os.path.abspath(__file__)))
 
 CHECKS = {
+    "C17": dict(
+        category="model_checking",
+        text="TLC checks, on Config.tla, that the transcription of process_options / build_per_module_cache / clone_for_module / compile_glob / "
+             "inline application equals the documented precedence rule, for every ordered selection of <=4 sections from 6 patterns x unset / 2 "
+             "values per source x 39 module names (3-value and second-alphabet configs too); spec-level mutants (NoSort, ConcreteFirst, "
+             "FirstGlobWins) are rejected on every run. Every emitted configuration is replayed into the real code (process_options, "
+             "clone_for_module, parse_mypy_comments, apply_changes) under rotating options, spellings and file formats (mypy.ini / setup.cfg / "
+             "pyproject.toml), a sample goes through real builds and `python -m mypy`. Source equivalence: every flag and ini_config_types key x "
+             "every accepting source, comparing Options snapshots and, for witnessed settings, diagnostics.",
+        design_ref="DESIGN.md 5.C17, notes/C17.md",
+        note="single-letter module components; bare [mypy-*] excluded; list-valued and error-code options only under equivalence; quick: <=3 "
+             "sections exhaustive + a simulated 4-section sample; known finding: [mypy-*.b] does not apply to top-level module b (doc vs code)",
+        technique="TLA+ spec with the documented rule and the code transcription side by side, model-checked with TLC; TLC-emitted configurations replayed into real mypy option processing, builds and CLI; source-equivalence sweep",
+    ),
     "C03": dict(
         category="model_checking",
         text="Daemon.tla models the request protocol of the daemon's fine-grained increments (changed-module processing reachable from the roots, "
